@@ -6,7 +6,8 @@
 From Coq Require Import List NArith ZArith Bool.
 Import ListNotations.
 From HV Require Import Model.Big Proofs.BigSpec Proofs.BigAll.
-From HV Require Proofs.BigMul Proofs.BigDiv.
+From HV Require Import Proofs.CoroSpec.
+From HV Require Proofs.BigMul Proofs.BigDiv Proofs.CoroProofs.
 Open Scope Z_scope.
 
 Theorem C05_add : forall a b, wf a -> wf b -> wf (badd a b) /\ bval (badd a b) = bval a + bval b.
@@ -46,6 +47,13 @@ Print Assumptions C05_cmp.
 Theorem C05_normal_form_unique : forall a b, wf a -> wf b -> bval a = bval b -> a = b.
 Proof. exact wf_unique_t. Qed.
 Print Assumptions C05_normal_form_unique.
+
+(* results depend on the operands' values only (the in-place operators `+=` ... are set_move of the pure result: the same
+   functions in the model; their agreement on the real code is decided by the differential run) *)
+Theorem C05_results_depend_on_values_only : forall a a' b b', wf a -> wf a' -> wf b -> wf b' -> bval a = bval a' -> bval b = bval b' ->
+  badd a b = badd a' b' /\ bsub a b = bsub a' b' /\ bmul a b = bmul a' b'.
+Proof. exact CoroProofs.badd_respects. Qed.
+Print Assumptions C05_results_depend_on_values_only.
 
 (* gcd: the Euclid loop terminates within its fuel and returns a value of the right magnitude *)
 Theorem C05_gcd : forall a b, wf a -> wf b ->
